@@ -166,6 +166,8 @@ def check(spec):
     )
     spans, na_key = key_facts(case, g, envp)
     sig["na_key_present"] = na_key
+    # no row belongs to any group: zero rows, or every row has an NA key and dropna is not False
+    sig["no_group_rows"] = no_group_rows(case, g, envp)
     sl = g.get("slice")
     vcols = [c for c in ([sl] if isinstance(sl, str) else sl or [n for n in kinds if n not in bycols]) if c in case.base.columns]
     sig["vals_na"] = bool(case.base[vcols].isna().to_numpy().any()) if vcols and len(case.base) else False
@@ -216,6 +218,14 @@ def check(spec):
     # sorted by its index first - so values are compared only for one partition with a sorted index, or
     # grouping by the index itself with known divisions, where no reordering can happen)
     no_reorder = (case.nparts == 1 and case.monotonic) or (g["by"] == "index" and case.known_div)
+    if a["name"] == "transform" and isinstance(want, pd.Series) and len(want) == 0 and len(case.pdf) > 0 and sig["no_group_rows"]:
+        # pandas artefact on a degenerate input: when EVERY row has an NA key (dropna not False -> zero groups),
+        # SeriesGroupBy.transform(<callable>) takes its "no results" branch and returns an EMPTY float64 Series
+        # (generic.py:_transform_general; the DataFrameGroupBy variant raises "No objects to concatenate" -> Reject),
+        # whereas as soon as one row has a real key it returns one row per input row with NaN for the NA-key rows.
+        # dask follows the non-degenerate rule (one NaN row per NA-key row); that is the reference used here.
+        count("all-na-keys-transform-udf-reference-extended")
+        want = pd.Series(np.nan, index=case.base.index, name=want.name, dtype="float64")
     if order_dependent and not no_reorder:
         count("order-dependent-transform-weak-check")
         weak_compare(got, want, sig)
@@ -230,6 +240,19 @@ def check(spec):
             want = want.copy()
             want.index = got.index[:0]
     D.compare(got, want, meta, check_order=False, **kw)
+
+
+def no_group_rows(case, g, env):
+    """True when no row belongs to any group (zero rows, or every key is NA and dropna is not False)."""
+    if len(case.base) == 0:
+        return True
+    kw = {k: g[k] for k in ("sort", "dropna", "observed") if k in g}
+    try:
+        with warnings.catch_warnings():
+            warnings.simplefilter("ignore")
+            return int(case.base.groupby(make_by(case.base, g, env), **kw).size().sum()) == 0
+    except Exception:  # noqa: BLE001 - pandas rejects the grouping: the reference call rejects the case anyway
+        return False
 
 
 def weak_compare(got, want, sig):
